@@ -165,6 +165,11 @@ func (f *compressFilter) Compress(cfg *redis.Compression, command string, resp *
 		if uint32(len(r.Text)) < cfg.Threshold {
 			continue
 		}
+		// The filter chain runs again when a request is resent after a
+		// redirection; never compress an already compressed value twice.
+		if bytes.HasPrefix(r.Text, cpsHdrs[cfg.Algorithm]) {
+			continue
+		}
 		r.Text = f.compress(r.Text, cfg.Algorithm)
 		resp.Array[i] = r
 	}
